@@ -400,7 +400,9 @@ func (d *simpleDecDriver[T]) ReadArrayStart() (length int) {
 }
 
 func (d *simpleDecDriver[T]) uint2Len(ui uint64) int {
-	if chkOvf.Uint(ui, intBitsize) {
+	// a length must fit an int: int(ui) of a larger value is negative, and would be
+	// mistaken for "no length" (< 0) or for the containerLenNil sentinel (math.MinInt32)
+	if ui > math.MaxInt {
 		halt.errorf("overflow integer: %v", ui)
 	}
 	return int(ui)
